@@ -760,6 +760,7 @@ def plan(ctx):
 
 
 def run(ctx):
+    rs.CURRENT_PID = ctx.pid
     t0 = time.time()
     items = plan(ctx)
     deadline = t0 + ctx.scale(17.0, 270.0)
@@ -838,6 +839,7 @@ def search(ctx, unproved):
 
 
 def replay(ctx, violation):
+    rs.CURRENT_PID = ctx.pid
     rp = violation.get("replay") or {}
     tmp = ctx.tmpdir()
     try:
